@@ -23,7 +23,12 @@
 (*                (u may be idle, queued, or finished: a stale waker)      *)
 (*   Await(c)     poll the Receiver of child c                             *)
 (*   Complete     return Ready(100 + id)                                   *)
-(* External (between steps): spawn of a root task, kick, try_receive.      *)
+(* External (between steps): spawn of a root task, kick, try_receive, and   *)
+(* the two ways of running: step() (one poll, observed individually) and   *)
+(* run_until_stalled() (RunBegin .. RunEnd(n): polls until nothing is      *)
+(* woken; each poll needs its own wake; n = number of polls that reported   *)
+(* completion, i.e. tasks that completed during the call plus finished     *)
+(* tasks a stale waker had queued - step() returns Some(true) for those).  *)
 (*                                                                         *)
 (* Observation points: every event carries Executor::wake_count(); the     *)
 (* contract demands wake_count = Cardinality(woken) (no lost wake-up, no   *)
@@ -65,6 +70,8 @@ VARIABLES
   rc      \* completions counted by the current run_until_stalled call
 
 avars == <<st, woken, cur, ph, blk, left, sig, wt, relay, rw, par, seen, ov, run, rc>>
+\* model-checking view: the count rc is a function of the path, not of the state
+aview == <<st, woken, cur, ph, blk, left, sig, wt, relay, rw, par, seen, ov, run>>
 
 AInit ==
   /\ st = [t \in Tasks |-> "A"]
